@@ -125,6 +125,7 @@ def run(R):
     r4(R)
     r5(R)
     r6(R)
+    r7(R)
     # conforming sibling (cited): execute_window_plans_on_external_buckets builds a fresh database per window
     sib = prog.one("rsp_engine::execute_window_plans_on_external_buckets", crate="kolibrie")
     if sib is not None:
@@ -531,3 +532,57 @@ def r6(R):
                  where=b.where(c.ln), detail=None if ok else "one window's reported content is stored as another window's content: that window's block is "
                  "then evaluated over items of a foreign stream")
     R.floor("C11-R6", "per-window insertions of received results", n, 4)
+
+
+def r7(R):
+    """every window declaration is paired with its WINDOW block by a search over the complete block list"""
+    prog = R.prog
+    R.rule("C11-R7", "a window's plan is its own WINDOW block: the lookup that pairs a FROM NAMED WINDOW declaration with the WINDOW block "
+                     "of the WHERE clause searches the complete list of blocks by name for every declaration - the searched iterator is "
+                     "created in the same loop iteration as the search (an iterator carried across declarations has already consumed "
+                     "the blocks before the previous match), and declarations are not paired with blocks by position")
+    CONSUMERS = {"find", "find_map", "position", "rposition", "any", "all", "nth", "skip_while", "take_while", "try_fold", "try_for_each"}
+    n = 0
+    for b in sorted(prog.bodies.values(), key=lambda x: x.key):
+        if b.crate != "kolibrie" or "::tests::" in b.key or "WindowBlock" not in " ".join(l.get("ty", "") for l in b.locals):
+            continue
+        for c in b.calls():
+            if not c.args:
+                continue
+            pl = F.op_place(c.args[0])
+            if pl is None:
+                continue
+            ty = b.local_ty(pl["l"])
+            if c.name() == "zip" and len(c.args) == 2:
+                p2 = F.op_place(c.args[1])
+                t2 = b.local_ty(p2["l"]) if p2 else ""
+                both = ("WindowBlock" in ty and "WindowClause" in t2) or ("WindowClause" in ty and "WindowBlock" in t2)
+                if both:
+                    n += 1
+                    R.ob("C11-R7", "by-name:" + b.short, "%s pairs window declarations with WINDOW blocks by name, not by position (zip of the two lists)" % b.short,
+                         False, where=b.where(c.ln), detail="blocks written in another order than the declarations are evaluated by the wrong window")
+                continue
+            if c.name() not in CONSUMERS or "WindowBlock" not in ty or "Iter" not in ty:
+                continue
+            n += 1
+            R.saw(b)
+            loops = b.loops_containing(c.bb)
+            ok = True
+            why = "not in a loop"
+            if loops:
+                inner = min(loops, key=lambda hl: len(hl[1]))[1]
+                root = b.alias_root(c.args[0])
+                dl = root if isinstance(root, int) else pl["l"]
+                dbbs = set()
+                for d in b.defs().get(dl, []):
+                    if d[0] != "arg":
+                        dbbs.add(d[1])
+                created_in = [bb for bb in dbbs if bb in inner]
+                ok = bool(created_in)
+                why = "iterator `%s` created in bb%s, search in the loop at bb%d" % (b.local_name(dl) or "_%d" % dl, sorted(dbbs), min(inner))
+            R.ob("C11-R7", "fresh-search:" + b.short, "the WINDOW-block search (`%s`) in %s starts from the complete block list for each window (%s)"
+                 % (c.name(), b.short, why), ok, where=b.where(c.ln),
+                 detail=None if ok else "a short-circuiting search on an iterator that outlives the iteration continues after the previous match: a window "
+                 "whose block was already passed gets no block and runs the catch-all plan over the shared store, so its block's pattern is never applied "
+                 "to what that window reported")
+    R.floor("C11-R7", "WINDOW-block lookups", n, 1)
